@@ -56,15 +56,20 @@ theorem C09_backward_sound (g : Graph) (ctx1 : Nat → FeeValue) (lout : List (N
     ∀ i, i < tr.length → Fee.gamma (getMap lout tr[i]! feeNull) fee :=
   Flow.backward_sound feeLaws g ctx1 lout fee tr ht hleaf hsol
 
-/-- the full statement of the leaf layer — either operand order — is FALSE on the current code: a constant
-    on the left of an ordered comparison is read as if the field were on the left (known finding F02) -/
-def C09_leaf_full : Prop :=
-  ∀ (op : Cmp) (c fee : Nat), fee ≤ MAX_UINT64 →
-    (op.eval c fee = true → Fee.gamma (feeAssertedMax op { value := c }).1 fee)
+/-- operator table, constant as FIRST operand (`int c; txn Fee; op`): the model of the repaired
+    `_get_asserted_fee` reads it with the mirrored operator, and the table is sound for it
+    (known_findings F02, fixed: the unmirrored reading gave `int 1000; txn Fee; <` the bound 999) -/
+theorem C09_operator_table_const_first (op : Cmp) (c fee : Nat) (hfee : fee ≤ MAX_UINT64) :
+    (op.eval c fee = true → Fee.gamma (feeAssertedMax op.mirror { value := c }).1 fee) ∧
+    (op.eval c fee = false → Fee.gamma (feeAssertedMax op.mirror { value := c }).2 fee) := by
+  have := Fee.assertedMax_sound op.mirror c fee hfee
+  rwa [Cmp.mirror_eval] at this
 
-theorem C09_leaf_full_false : ¬ C09_leaf_full := by
+/-- the unmirrored reading really is unsound (regression witness of F02) -/
+theorem C09_unmirrored_unsound :
+    ¬ (∀ (op : Cmp) (c fee : Nat), fee ≤ MAX_UINT64 →
+        (op.eval c fee = true → Fee.gamma (feeAssertedMax op { value := c }).1 fee)) := by
   intro h
-  -- `int 1000; txn Fee; <` i.e. 1000 < fee holds for fee = 2000, yet the true bound is 999
   have := h .lt 1000 2000 (by decide) (by decide)
   revert this; decide
 
